@@ -51,6 +51,15 @@ def render_yaml(pol, action_text=None, op_text=None):
     return "\n".join(out) + "\n"
 
 
+def case_variant(rng, names):
+    """Names are documented to be case-insensitive: render each occurrence in its documented, lower or upper spelling."""
+    def f(key):
+        t = names[key]
+        r = rng.random()
+        return t if r < 0.6 else (t.lower() if r < 0.8 else t.upper())
+    return f
+
+
 class NamedGen(K.EnforceGen):
     """EnforceGen restricted to what a policy FILE can say: named actions only."""
 
@@ -215,6 +224,17 @@ def invalid_cases(rng, ng, table_names):
         else:
             g["nwc"].insert(rng.randint(0, len(g["nwc"])), dict(name=bogus, conds=[ng.pg.cond()]))
         out.append(with_text("unknown syscall name %r" % bogus, render_yaml(pol)))
+    # ... also in a group whose presence cannot change any decision (its action is the default action), first and last
+    for pos, bogus in (("last", "nosuchcall"), ("first", "getpid2"), ("last", "open at")):
+        pol = good()
+        extra = dict(action=pol["default"], names=[bogus] if rng.random() < 0.6 else [], nwc=[])
+        if not extra["names"]:
+            extra["nwc"] = [dict(name=bogus, conds=[ng.pg.cond()])]
+        if pos == "last":
+            pol["groups"].append(extra)
+        else:
+            pol["groups"].insert(0, extra)
+        out.append(with_text("unknown syscall name %r in a %s group whose action is the default action" % (bogus, pos), render_yaml(pol)))
     pol = good()
     g = rng.choice(pol["groups"])
     if not g["names"]:
@@ -440,7 +460,7 @@ def check_C15(ctx, replay=None):
             pol = ng.policy(kind)
             nnp = rng.choice([None, None, True, False])
             uid = NOBODY if (nnp is not False and rng.random() < 0.2) else 0
-            it = dict(cid="s%d" % i, pol=pol, tokens=PolicyGen.tokens(pol), yaml=render_yaml(pol), nnp=nnp, uid=uid, kind=kind,
+            it = dict(cid="s%d" % i, pol=pol, tokens=PolicyGen.tokens(pol), yaml=render_yaml(pol, action_text=case_variant(rng, ACTION_NAMES), op_text=case_variant(rng, OP_NAMES)), nnp=nnp, uid=uid, kind=kind,
                       events=ng.events(pol, 40 if q else 60), default_word=pol["default"])
             if rng.random() < 0.3:
                 it["extra_args"] = rng.sample(["-x", "--policy=zzz", "a b", "-no-new-privs=false", "7"], 2)
